@@ -103,6 +103,17 @@ add(
     "3/C10",
 )
 
+add(
+    "C12",
+    "The real Parameters/Parameter classes with the real asteval interpreter run on symbolic values: for every acyclic "
+    "dependency graph over 3 (thorough: 4) parameters in every declaration order, with arithmetic / exp vocabularies and "
+    "flat or nested labels, after construction, after each symbolic update via set_from_label_and_value_arrays and after "
+    "copy(), every expression parameter's value term equals the topological evaluation of its expression on the current "
+    "plain values, and a second update_parameter_expression() changes no term.",
+    COMMON_NOTE + "asteval executed as is (its operators dispatch to the term classes); exp as uninterpreted function.",
+    "3/C12",
+)
+
 ALL = [f"C{i:02d}" for i in range(1, 21)]
 
 
